@@ -116,7 +116,7 @@ def check_store_additive(ctx, rule, f, st, target, how, acc_names, forbidden_rea
         ctx.fail(rule, key, f'{label}: contribution reads {sorted(bad)} (running state): the term depends on the history', where)
         return False
     pm = astutil.parents(f.node)
-    for test, pol in astutil.guards(st, pm):
+    for test, pol in astutil.guards_ext(st, pm):
         badc = cond_forbidden(test)
         if badc:
             ctx.fail(rule, key, f'{label}: update conditioned on {sorted(badc)} in `{norm(test)[:80]}`', where)
@@ -180,8 +180,32 @@ def d1(ctx, prog, u, fl_paths, fl, closure, init_funcs):
                 def k_forbidden(e, wset=wset):
                     return {x for x in astutil.value_names_read(e) if x in wset}
 
-                def k_cond(e, wset=wset, loopvars=loopvars, trace_params=trace_params):
+                # batch aggregates: locals computed by reducing batch-derived arrays (counts / sums over the traces of the batch)
+                batch_derived = set(trace_params) | {p for p, a in amap.items() if isinstance(a, ast.Name) and a.id in batch_params}
+                aggregates = set()
+                for _ in range(2):
+                    for n in ast.walk(k.node):
+                        if isinstance(n, ast.Assign) and len(n.targets) == 1 and isinstance(n.targets[0], ast.Name):
+                            reads = astutil.names_read(n.value)
+                            if reads & (batch_derived | aggregates):
+                                red = any(isinstance(c, ast.Call) and norm(c.func).split('.')[-1] in ('sum', 'any', 'all', 'count_nonzero', 'max', 'min', 'mean', 'len')
+                                          for c in ast.walk(n.value))
+                                (aggregates if red or (reads & aggregates) else batch_derived).add(n.targets[0].id)
+
+                def harmless_empty_test(e, aggregates=aggregates):
+                    """`count == 0` / `count < 1` / `not mask.any()`: skipping an empty selection skips a zero contribution"""
+                    if isinstance(e, ast.Compare) and len(e.ops) == 1 and isinstance(e.left, ast.Name) and e.left.id in aggregates:
+                        c = __import__('sa.model', fromlist=['const_value']).const_value(e.comparators[0])
+                        return (isinstance(e.ops[0], ast.Eq) and c == 0) or (isinstance(e.ops[0], ast.Lt) and c == 1) or (isinstance(e.ops[0], ast.LtE) and c == 0)
+                    if isinstance(e, ast.UnaryOp) and isinstance(e.op, ast.Not):
+                        return isinstance(e.operand, ast.Name) and e.operand.id in aggregates or \
+                            (isinstance(e.operand, ast.Call) and norm(e.operand.func).split('.')[-1] == 'any')
+                    return False
+
+                def k_cond(e, wset=wset, loopvars=loopvars, trace_params=trace_params, aggregates=aggregates):
                     bad = {x for x in astutil.value_names_read(e) if x in wset}
+                    if not harmless_empty_test(e):
+                        bad |= {x + ' (a count/aggregate over the traces of this batch)' for x in astutil.names_read(e) if x in aggregates}
                     bad |= {x + ' (trace loop index)' for x in astutil.names_read(e) if x in loopvars}
                     if astutil.contains(e, lambda n: astutil.is_shape0(n, trace_params)):
                         bad.add('batch length')
